@@ -700,6 +700,10 @@ func (e *Engine) evalIdent(ctx *EvalCtx, name string) (Val, error) {
 		}
 		return Val{}, fmt.Errorf("$k is only available in range-index loops")
 	}
+	if name == "$wm" {
+		// allocation watermark of the state at hand: every object allocated so far has an id <= $wm, later ones a larger id
+		return Val{S: ctx.st.wm, Sort: "Int", T: types.Typ[types.Int]}, nil
+	}
 	if name == "$k" && ctx.loop != nil {
 		if ctx.f != nil {
 			for _, in := range ctx.loop.Header.Instrs {
@@ -1613,6 +1617,28 @@ func (e *Engine) evalCall(ctx *EvalCtx, x *Expr) (Val, error) {
 			return boolVal(fmt.Sprintf("(or (not (= (s.arr %s) (s.arr %s))) (= (s.arr %s) 0))", vs[0].S, vs[1].S, vs[0].S)), nil
 		}
 		return Val{}, fmt.Errorf("disjoint(a, b)")
+	case "ptrid":
+		// ptrid(p): allocation identity of the object p points to (0 for nil)
+		vs, err := args()
+		if err != nil {
+			return Val{}, err
+		}
+		if len(vs) == 1 {
+			if pt, ok := e.ptrTerm(vs[0]); ok {
+				return Val{S: pt, Sort: "Int", T: types.Typ[types.Int]}, nil
+			}
+		}
+		return Val{}, fmt.Errorf("ptrid(pointer)")
+	case "arrid":
+		// arrid(s): identity of the backing array of slice s (allocation order: later allocations have larger ids)
+		vs, err := args()
+		if err != nil {
+			return Val{}, err
+		}
+		if len(vs) == 1 {
+			return Val{S: fmt.Sprintf("(s.arr %s)", vs[0].S), Sort: "Int", T: types.Typ[types.Int]}, nil
+		}
+		return Val{}, fmt.Errorf("arrid(slice)")
 	case "samearray":
 		vs, err := args()
 		if err != nil {
